@@ -16,6 +16,7 @@ def run_deck(job):
         real_points = adeck.moved_points(deck['pts'], phi)
     else:
         text = job.get('text') or adeck.concretise(deck)
+        real_points = job.get('real_points')
     res = conv.convert(text, job.get('opts', ()), encoding=job.get('encoding', 'utf-8'))
     rec = {'tid': job['tid'], 'result': res['result'], 'err': res['error'], 'text': text,
            'note': conv.note_cells(res['stdout']), 'warnings': res['warnings'][:3],
@@ -29,7 +30,7 @@ def run_deck(job):
         import hashlib
         rec['out_hash'] = hashlib.sha1(res['out'].encode()).hexdigest()[:12]
         t4 = t4file.parse(res['out'])
-        rec['file'] = t4file.project(t4, deck['pts'], with_witness=(phi is None), real_points=real_points)
+        rec['file'] = t4file.project(t4, deck['pts'], with_witness=(real_points is None), real_points=real_points)
         rec['file'].setdefault('wit', [])
         rec['file']['cinfo'] = adeck.composition_info(t4, deck)
         if job.get('keep_parsed'):
